@@ -32,6 +32,7 @@ import (
 	"fmt"
 	"math"
 	"sort"
+	"strconv"
 	"strings"
 	"testing"
 
@@ -85,7 +86,8 @@ type Dataset struct {
 	Fam    string `json:"family"`
 	Cells  []Cell `json:"cells"`
 	Mode   string `json:"mode"`
-	Groups int    `json:"groups,omitempty"` // family C only: number of shard groups (3 or 4)
+	Groups int    `json:"groups,omitempty"` // families C and V: number of shard groups (3 or 4)
+	VMask  int    `json:"vmask,omitempty"`  // family V only: bit k set = the value at slot k is "high" (see valueV)
 }
 
 // slotC is the time of slot k of family C.
@@ -98,7 +100,7 @@ func slotC(k int) int64 {
 
 // slots are the slot times of the dataset's family.
 func (ds Dataset) slots() []int64 {
-	if ds.Fam != "C" {
+	if ds.Fam != "C" && ds.Fam != "V" {
 		return slotT[:]
 	}
 	out := make([]int64, 2*ds.Groups)
@@ -110,7 +112,7 @@ func (ds Dataset) slots() []int64 {
 
 // ngroups is the number of shard groups the dataset's slots span.
 func (ds Dataset) ngroups() int {
-	if ds.Fam != "C" {
+	if ds.Fam != "C" && ds.Fam != "V" {
 		return 2
 	}
 	return ds.Groups
@@ -131,13 +133,96 @@ func value(s, f, k int, old bool) any {
 	return v
 }
 
-// P is a predicate of the family.
+// Family V ("field values"): slot geometry and field layout of family C; every point is "low" or "high":
+//
+//	n = s*10 + k (+100 if high)          f0: float64(n)+0.5     f1: int64(n)
+//
+// so low values are 0…37.5 and high values 100…137.5, unique per (series, slot). Slot k is high for the even pool
+// series iff bit k of VMask is set, and for the odd pool series iff it is NOT set (the two series of a measurement have
+// complementary patterns). The OLD value of the layout "overwrite" is of the OPPOSITE class, +40 (40…77.5 / 140…177.5):
+// a value condition with threshold 80 separates low from high for final and old values alike, and an overwritten point
+// must be judged by its final value.
+const vThreshold = 80
+
+func valueV(ds Dataset, s, f, k int, old bool) any {
+	hi := ds.VMask>>k&1 == 1
+	if s%2 == 1 {
+		hi = !hi
+	}
+	n := s*10 + k
+	if old {
+		hi = !hi
+		n += 40
+	}
+	if hi {
+		n += 100
+	}
+	if f == 0 {
+		return float64(n) + 0.5
+	}
+	return int64(n)
+}
+
+// val is the value written at (series s, field f, slot k) of the dataset.
+func (ds Dataset) val(s, f, k int, old bool) any {
+	if ds.Fam == "V" {
+		return valueV(ds, s, f, k, old)
+	}
+	return value(s, f, k, old)
+}
+
+// P is a predicate of the family. The ops vgt, vlt, vge, vle, veq, vne compare the FIELD VALUE of a point (the `_value`
+// column: datatypes.Node_TypeFieldRef, as the Flux planner pushes `r._value > 80.0` down) with the numeric literal Num,
+// sent as a float literal or (IntLit) as an integer literal.
 type P struct {
-	Op string `json:"op"` // eq | ne | and | or
-	K  string `json:"k,omitempty"`
-	V  string `json:"v,omitempty"`
-	L  *P     `json:"l,omitempty"`
-	R  *P     `json:"r,omitempty"`
+	Op     string  `json:"op"` // eq | ne | and | or | vgt | vlt | vge | vle | veq | vne
+	K      string  `json:"k,omitempty"`
+	V      string  `json:"v,omitempty"`
+	L      *P      `json:"l,omitempty"`
+	R      *P      `json:"r,omitempty"`
+	Num    float64 `json:"num,omitempty"`
+	IntLit bool    `json:"int_literal,omitempty"`
+}
+
+func vcmp(op string, num float64) *P  { return &P{Op: op, Num: num} }
+func vcmpInt(op string, num int64) *P { return &P{Op: op, Num: float64(num), IntLit: true} }
+
+var vOps = map[string]struct {
+	sym string
+	pb  datatypes.Node_Comparison
+}{
+	"vgt": {">", datatypes.Node_ComparisonGreater}, "vlt": {"<", datatypes.Node_ComparisonLess},
+	"vge": {">=", datatypes.Node_ComparisonGreaterEqual}, "vle": {"<=", datatypes.Node_ComparisonLessEqual},
+	"veq": {"=", datatypes.Node_ComparisonEqual}, "vne": {"!=", datatypes.Node_ComparisonNotEqual},
+}
+
+func (p *P) isValueAtom() bool { _, ok := vOps[p.Op]; return ok }
+
+// hasValue: the predicate contains a field-value comparison.
+func (p *P) hasValue() bool {
+	if p == nil {
+		return false
+	}
+	if p.isValueAtom() {
+		return true
+	}
+	return p.L.hasValue() || p.R.hasValue()
+}
+
+// valueNode builds `_value <op> literal` (own builder: mini has tag comparisons only).
+func (p *P) valueNode() *datatypes.Node {
+	lit := &datatypes.Node{NodeType: datatypes.Node_TypeLiteral, Value: &datatypes.Node_FloatValue{FloatValue: p.Num}}
+	if p.IntLit {
+		lit = &datatypes.Node{NodeType: datatypes.Node_TypeLiteral, Value: &datatypes.Node_IntegerValue{IntegerValue: int64(p.Num)}}
+	}
+	return &datatypes.Node{
+		NodeType: datatypes.Node_TypeComparisonExpression,
+		Value:    &datatypes.Node_Comparison_{Comparison: vOps[p.Op].pb},
+		Children: []*datatypes.Node{
+			{NodeType: datatypes.Node_TypeFieldRef, Value: &datatypes.Node_FieldRefValue{FieldRefValue: datatypes.ValueKey}},
+			lit,
+		},
+	}
 }
 
 func eq(k, v string) *P { return &P{Op: "eq", K: k, V: v} }
@@ -156,8 +241,13 @@ func (p *P) String() string {
 		return fmt.Sprintf("%s!=%q", p.K, p.V)
 	case "and":
 		return "(" + p.L.String() + " AND " + p.R.String() + ")"
-	default:
+	case "or":
 		return "(" + p.L.String() + " OR " + p.R.String() + ")"
+	default:
+		if p.IntLit {
+			return fmt.Sprintf("_value%s%d", vOps[p.Op].sym, int64(p.Num))
+		}
+		return fmt.Sprintf("_value%s%s", vOps[p.Op].sym, strconv.FormatFloat(p.Num, 'f', 1, 64))
 	}
 }
 
@@ -172,8 +262,10 @@ func (p *P) node() *datatypes.Node {
 		return mini.TagNe(p.K, p.V)
 	case "and":
 		return mini.And(p.L.node(), p.R.node())
-	default:
+	case "or":
 		return mini.Or(p.L.node(), p.R.node())
+	default:
+		return p.valueNode()
 	}
 }
 
@@ -189,6 +281,12 @@ func (p *P) kind() string {
 			k = p.K
 		}
 		return k + "-" + p.Op
+	}
+	if p.isValueAtom() {
+		return "value"
+	}
+	if p.hasValue() { // and / or with a field-value comparison below it
+		return p.Op + "-value"
 	}
 	return p.Op
 }
@@ -472,8 +570,8 @@ func datasets(thorough bool) []Dataset {
 			outB = append(outB, Dataset{Fam: "B", Cells: famBCells(pat), Mode: mode})
 		}
 	}
-	// family A first, then families B and C in alternating blocks of 16 (each simplest-first)
-	return append(out, interleave(outB, datasetsC(thorough), 16)...)
+	// family A first, then families B, C and V in alternating blocks of 16 (each simplest-first)
+	return append(out, interleave(16, outB, datasetsC(thorough), datasetsV(thorough))...)
 }
 
 func present(p []int) int {
@@ -617,13 +715,149 @@ func datasetsC(thorough bool) []Dataset {
 
 // interleave merges two dataset lists in alternating blocks of n (n = the number of workers, so that every worker
 // meets both lists in their own order and a wall-budget cap cuts the tails of both rather than one list entirely).
-func interleave(x, y []Dataset, n int) []Dataset {
+func interleave(n int, lists ...[]Dataset) []Dataset {
 	var out []Dataset
-	for len(x) > 0 || len(y) > 0 {
-		k := min(n, len(x))
-		out, x = append(out, x[:k]...), x[k:]
-		k = min(n, len(y))
-		out, y = append(out, y[:k]...), y[k:]
+	for more := true; more; {
+		more = false
+		for i := range lists {
+			k := min(n, len(lists[i]))
+			out, lists[i] = append(out, lists[i][:k]...), lists[i][k:]
+			more = more || len(lists[i]) > 0
+		}
+	}
+	return out
+}
+
+// ---------------------------------------------------------------------------------------------------------
+// family V ("field values"): G = 3 shard groups with the slot geometry and the field layout of family C; a dataset is a
+// presence vector (which series is written in which group) × a value mask over the 2G slots (see valueV): EVERY
+// assignment of low/high to the slots, so the value condition `_value > 80` / `_value < 80` holds for none / some / all
+// points of a shard, differently per shard and (complementary patterns) per series of a measurement.
+//
+//	full       every pool series in every group
+//	staggered  m0{a=x}: groups 0,1   m0{a=y,b=z}: groups 1,2   m1{a=x,b=z}: groups 0,1,2   m1{b=w}: groups 0,2
+func datasetsV(thorough bool) []Dataset {
+	const groups = 3
+	full, staggered := []int{0b111, 0b111, 0b111, 0b111}, []int{0b011, 0b110, 0b111, 0b101}
+	var out []Dataset
+	mk := func(pres []int, modes ...string) {
+		for vm := 0; vm < 1<<(2*groups); vm++ {
+			for _, mode := range modes {
+				out = append(out, Dataset{Fam: "V", Cells: famCCells(pres, groups), Mode: mode, Groups: groups, VMask: vm})
+			}
+		}
+	}
+	if !thorough {
+		mk(full, "mixed")
+		return out
+	}
+	mk(full, "mixed", "overwrite")
+	mk(staggered, "mixed", "overwrite")
+	mk(full, "cache", "tsm2")
+	return out
+}
+
+// requestsV is the request family of a family-V dataset: ranges over the cut points MinInt64, one cut inside every
+// group, MaxInt64 (thorough: + the boundary between groups 0 and 1) × value predicates: the value comparison alone,
+// tag OR value, tag AND value (both operand orders), two nested shapes; thorough: every tag atom × every value atom.
+func requestsV(thorough bool, groups int) []Req {
+	cutSet := map[int64]bool{math.MinInt64: true, math.MaxInt64: true}
+	for g := 0; g < groups; g++ {
+		cutSet[slotC(2*g)+1] = true
+	}
+	if thorough {
+		cutSet[slotC(2)] = true
+	}
+	var c []int64
+	for x := range cutSet {
+		c = append(c, x)
+	}
+	sort.Slice(c, func(i, j int) bool { return c[i] < c[j] })
+	va, vb := vcmp("vgt", vThreshold), vcmp("vlt", vThreshold)
+	fp := []*P{va, vb,
+		or(eq("a", "x"), va), or(eq("b", "z"), va), or(eq("a", "y"), vb), or(vb, eq("a", "x")),
+		or(eq("_field", "f0"), va), or(eq("_measurement", "m1"), vb),
+		and(eq("a", "x"), va), and(eq("_field", "f1"), vb), and(va, eq("b", "z")),
+		or(and(eq("a", "x"), va), eq("b", "w")), and(or(eq("a", "y"), va), eq("_measurement", "m0"))}
+	if thorough {
+		atoms := []*P{eq("a", "x"), eq("a", "y"), eq("b", "z"), eq("b", "w"), eq("_measurement", "m0"), eq("_measurement", "m1"),
+			eq("_field", "f0"), eq("_field", "f1"), ne("a", "x")}
+		// 100.5 is the value of m0{a=x}#f0 at slot 0 when high, 110 the value of m0{a=y,b=z}… / any f1 of series 1 at slot 0
+		// when high: = and != have points on both sides; integer literals are compared with float and integer fields alike
+		vals := []*P{va, vb, vcmp("vge", vThreshold), vcmp("vle", vThreshold), vcmp("veq", 100.5), vcmp("vne", 100.5),
+			vcmpInt("veq", 110), vcmpInt("vgt", vThreshold)}
+		fp = append(fp, vals[2:]...)
+		for _, a := range atoms {
+			for i, v := range vals {
+				fp = append(fp, or(a, v), and(a, v))
+				if i < 2 {
+					fp = append(fp, or(v, a), and(v, a))
+				}
+			}
+		}
+	}
+	var out []Req
+	for i := range c {
+		for j := i + 1; j < len(c); j++ {
+			for _, p := range fp {
+				out = append(out, Req{Kind: "filter", Start: c[i], End: c[j], Pred: p})
+			}
+		}
+	}
+	inFirst, inLast := slotC(0)+1, slotC(2*groups-2)+1
+	gr := []rng{{math.MinInt64, math.MaxInt64}, {inFirst, inLast}}
+	type gk struct {
+		mode string
+		keys []string
+	}
+	gks := []gk{{"by", []string{"a"}}, {"by", []string{"_measurement", "_field"}}, {"none", []string{}}}
+	aggs := []string{"", "count", "sum", "min", "last"}
+	gp := []*P{va, or(eq("a", "y"), vb), and(eq("b", "z"), va)}
+	if thorough {
+		aggs = allAggs
+		gp = append(gp, vb, or(eq("b", "z"), va), or(eq("_field", "f0"), vb), and(eq("a", "x"), vb))
+	}
+	for _, agg := range aggs {
+		for _, g := range gks {
+			for _, r := range gr {
+				for _, p := range gp {
+					out = append(out, Req{Kind: "group", Start: r.s, End: r.e, Pred: p, GMode: g.mode, Keys: g.keys, Agg: agg})
+				}
+			}
+		}
+	}
+	return out
+}
+
+// valueCut (family V, outcome class) describes, from the model only, what the value part of the predicate does to the
+// series the request must return: none = every in-range point of every such series is accepted; some-points = some are
+// rejected; whole-shard = some series has a shard group whose in-range points are ALL rejected although the series has
+// accepted points in another group (the read meets a fully filtered shard); no-series = nothing must be returned.
+func valueCut(md *model, r Req) string {
+	out, rank := "no-series", map[string]int{"no-series": 0, "none": 1, "some-points": 2, "whole-shard": 3}
+	for _, k := range md.keys {
+		mc := md.cells[k]
+		inr, must, _ := splitV(mc, r)
+		if len(must) == 0 {
+			continue
+		}
+		cl := "none"
+		if len(must) < len(inr) {
+			cl = "some-points"
+			hasIn, hasMust := map[int]bool{}, map[int]bool{}
+			for _, p := range inr {
+				hasIn[groupOf(p.T)] = true
+			}
+			for _, p := range must {
+				hasMust[groupOf(p.T)] = true
+			}
+			if len(hasMust) < len(hasIn) {
+				cl = "whole-shard"
+			}
+		}
+		if rank[cl] > rank[out] {
+			out = cl
+		}
 	}
 	return out
 }
@@ -737,7 +971,7 @@ func buildModel(ds Dataset) *model {
 		mc := &mcell{key: cellKey(tags), tags: tags, field: c.F}
 		for k, t := range ds.slots() {
 			if c.Mask>>k&1 == 1 {
-				mc.pts = append(mc.pts, mini.Pt{T: t, V: value(c.S, c.F, k, false)})
+				mc.pts = append(mc.pts, mini.Pt{T: t, V: ds.val(c.S, c.F, k, false)})
 			}
 		}
 		if len(mc.pts) == 0 {
@@ -762,9 +996,40 @@ const (
 	yes
 )
 
-func match(p *P, tags map[string]string) int {
+// match judges a SERIES: field-value comparisons are unknown at this level (either).
+func match(p *P, tags map[string]string) int { return evalPt(p, tags, nil) }
+
+// evalPt judges one POINT with field value v (float64 or int64; nil = unknown) of a series with the given tags: the
+// predicate is evaluated as a Boolean expression over the series' tags and the point's own value, as the statement's
+// "tag/field predicate" and the documented semantics of AND / OR prescribe.
+func evalPt(p *P, tags map[string]string, v any) int {
 	if p == nil {
 		return yes
+	}
+	if p.isValueAtom() {
+		f, ok := num(v)
+		if !ok {
+			return either
+		}
+		var b bool
+		switch p.Op {
+		case "vgt":
+			b = f > p.Num
+		case "vlt":
+			b = f < p.Num
+		case "vge":
+			b = f >= p.Num
+		case "vle":
+			b = f <= p.Num
+		case "veq":
+			b = f == p.Num
+		default:
+			b = f != p.Num
+		}
+		if b {
+			return yes
+		}
+		return no
 	}
 	switch p.Op {
 	case "eq":
@@ -783,10 +1048,93 @@ func match(p *P, tags map[string]string) int {
 		}
 		return no
 	case "and":
-		return min(match(p.L, tags), match(p.R, tags))
+		return min(evalPt(p.L, tags, v), evalPt(p.R, tags, v))
 	default:
-		return max(match(p.L, tags), match(p.R, tags))
+		return max(evalPt(p.L, tags, v), evalPt(p.R, tags, v))
 	}
+}
+
+// splitV (value predicates): of the stored points of a cell in range, must = those the predicate accepts (yes),
+// allowed = those it does not reject (yes or either; "either" only arises from `tag != v` on a series lacking the tag).
+func splitV(mc *mcell, r Req) (inr, must, allowed []mini.Pt) {
+	inr = inRange(mc.pts, r)
+	for _, p := range inr {
+		switch evalPt(r.Pred, mc.tags, p.V) {
+		case yes:
+			must = append(must, p)
+			allowed = append(allowed, p)
+		case either:
+			allowed = append(allowed, p)
+		}
+	}
+	return
+}
+
+// comparePointsV: got must be strictly ascending stored points of the range with their stored values, none rejected by
+// the predicate, and contain every point the predicate accepts.
+func comparePointsV(got, inr, must, allowed []mini.Pt) (string, bool) {
+	for i := 1; i < len(got); i++ {
+		if got[i].T == got[i-1].T {
+			return "duplicate-points", false
+		}
+	}
+	for i := 1; i < len(got); i++ {
+		if got[i].T < got[i-1].T {
+			return "points-out-of-order", false
+		}
+	}
+	st, al, gt := map[int64]any{}, map[int64]bool{}, map[int64]bool{}
+	for _, p := range inr {
+		st[p.T] = p.V
+	}
+	for _, p := range allowed {
+		al[p.T] = true
+	}
+	for _, p := range got {
+		gt[p.T] = true
+		v, ok := st[p.T]
+		if !ok {
+			return "extra-points", false
+		}
+		if !sameVal(p.V, v) {
+			return "wrong-values", false
+		}
+	}
+	for _, p := range got {
+		if !al[p.T] {
+			return "nonmatching-points", false
+		}
+	}
+	for _, p := range must {
+		if !gt[p.T] {
+			return "dropped-points", false
+		}
+	}
+	return "", true
+}
+
+// droppedWhere (value predicates, signature feature): "later-shard" if every accepted point missing from got lies in a
+// shard group after the first group in which the series has a point in range, else "first-shard".
+func droppedWhere(got, inr, must []mini.Pt) string {
+	gt := map[int64]bool{}
+	for _, p := range got {
+		gt[p.T] = true
+	}
+	for _, p := range must {
+		if !gt[p.T] && groupOf(p.T) == groupOf(inr[0].T) {
+			return "first-shard"
+		}
+	}
+	return "later-shard"
+}
+
+// matchedBy (value predicates, signature feature): "tags" if the series satisfies the predicate whatever the value of a
+// point is (its tag part alone decides), else "value".
+func matchedBy(p *P, tags map[string]string) string {
+	if match(p, tags) == yes {
+		return "tags"
+	}
+	return "value"
 }
 
 func inRange(pts []mini.Pt, r Req) []mini.Pt {
@@ -852,6 +1200,7 @@ func aggregate(agg string, field int, pts []mini.Pt) mini.Pt {
 type problem struct {
 	clause string // short class name (goes into the signature)
 	detail string
+	feat   string // value-predicate family only: extra signature feature ("series-matches-by=tags|value")
 }
 
 func tagMap(ts []mini.Tag) map[string]string {
@@ -931,7 +1280,7 @@ func checkSeries(list []mini.Series, md *model, r Req) (probs []problem, nonEmpt
 		tags := tagMap(s.Tags)
 		key := cellKey(tags)
 		if len(tags) != len(s.Tags) {
-			probs = append(probs, problem{"malformed-tags", fmt.Sprintf("series %v repeats a tag key", s.Tags)})
+			probs = append(probs, problem{clause: "malformed-tags", detail: fmt.Sprintf("series %v repeats a tag key", s.Tags)})
 			continue
 		}
 		mt := match(r.Pred, tags)
@@ -939,41 +1288,63 @@ func checkSeries(list []mini.Series, md *model, r Req) (probs []problem, nonEmpt
 			// an index series without points in range: tolerated if it is a stored series × a stored field of its
 			// measurement and is not excluded by the predicate
 			if !md.seriesOf[seriesKey(tags)] || !md.fieldsOf[tags["_measurement"]][tags["_field"]] {
-				probs = append(probs, problem{"unknown-series-empty", fmt.Sprintf("returned series %s was never written", key)})
+				probs = append(probs, problem{clause: "unknown-series-empty", detail: fmt.Sprintf("returned series %s was never written", key)})
 			} else if mt == no {
-				probs = append(probs, problem{"nonmatching-series-empty", fmt.Sprintf("returned series %s (no points) does not match %s", key, r.Pred)})
+				probs = append(probs, problem{clause: "nonmatching-series-empty", detail: fmt.Sprintf("returned series %s (no points) does not match %s", key, r.Pred)})
 			}
 			continue
 		}
 		nonEmpty++
 		mc := md.cells[key]
 		if mc == nil {
-			probs = append(probs, problem{"unknown-series", fmt.Sprintf("returned series %s with points %s was never written", key, fmtPts(s.Points))})
+			probs = append(probs, problem{clause: "unknown-series", detail: fmt.Sprintf("returned series %s with points %s was never written", key, fmtPts(s.Points))})
 			continue
 		}
 		if mt == no {
-			probs = append(probs, problem{"nonmatching-series", fmt.Sprintf("returned series %s does not match %s", key, r.Pred)})
+			probs = append(probs, problem{clause: "nonmatching-series", detail: fmt.Sprintf("returned series %s does not match %s", key, r.Pred)})
 			continue
 		}
 		seen[key]++
 		if seen[key] > 1 {
-			probs = append(probs, problem{"duplicate-series", fmt.Sprintf("series %s returned %d times with points", key, seen[key])})
+			probs = append(probs, problem{clause: "duplicate-series", detail: fmt.Sprintf("series %s returned %d times with points", key, seen[key])})
 			continue
 		}
 		want := inRange(mc.pts, r)
 		if len(want) == 0 {
-			probs = append(probs, problem{"points-outside-range", fmt.Sprintf("series %s has no stored point in range but %s was returned", key, fmtPts(s.Points))})
+			probs = append(probs, problem{clause: "points-outside-range", detail: fmt.Sprintf("series %s has no stored point in range but %s was returned", key, fmtPts(s.Points))})
 			continue
+		}
+		by := ""
+		if r.Pred.hasValue() {
+			inr, must, allowed := splitV(mc, r)
+			by = "series-matches-by=" + matchedBy(r.Pred, tags)
+			if r.Agg == "" {
+				if cl, ok := comparePointsV(s.Points, inr, must, allowed); !ok {
+					if cl == "dropped-points" {
+						by += ",dropped-in=" + droppedWhere(s.Points, inr, must)
+					}
+					probs = append(probs, problem{cl, fmt.Sprintf("series %s: got %s; stored in range %s, of which %s satisfy %s", key, fmtPts(s.Points), fmtPts(inr), fmtPts(must), r.Pred), by})
+				}
+				continue
+			}
+			if len(must) != len(allowed) {
+				continue // `tag != v` on a series lacking the tag: the aggregate's input is not determined by the statement
+			}
+			if len(must) == 0 {
+				probs = append(probs, problem{clause: "nonmatching-points", detail: fmt.Sprintf("series %s: no stored point in range satisfies %s but %s returned %s", key, r.Pred, r.Agg, fmtPts(s.Points)), feat: by})
+				continue
+			}
+			want = must
 		}
 		if r.Agg == "" {
 			if cl, ok := comparePoints(s.Points, want); !ok {
-				probs = append(probs, problem{cl, fmt.Sprintf("series %s: got %s want %s", key, fmtPts(s.Points), fmtPts(want))})
+				probs = append(probs, problem{clause: cl, detail: fmt.Sprintf("series %s: got %s want %s", key, fmtPts(s.Points), fmtPts(want))})
 			}
 			continue
 		}
 		wa := aggregate(r.Agg, mc.field, want)
 		if len(s.Points) != 1 {
-			probs = append(probs, problem{"aggregate-cardinality", fmt.Sprintf("series %s: %s returned %s, want one value %v", key, r.Agg, fmtPts(s.Points), wa.V)})
+			probs = append(probs, problem{clause: "aggregate-cardinality", detail: fmt.Sprintf("series %s: %s returned %s, want one value %v", key, r.Agg, fmtPts(s.Points), wa.V), feat: by})
 			continue
 		}
 		g := s.Points[0]
@@ -984,13 +1355,19 @@ func checkSeries(list []mini.Series, md *model, r Req) (probs []problem, nonEmpt
 			ok = isf && math.Abs(gf-wf) <= 1e-9*math.Max(1, math.Abs(wf))
 		}
 		if !ok {
-			probs = append(probs, problem{"aggregate-value", fmt.Sprintf("series %s: %s over %s returned %v(%T), want %v(%T)", key, r.Agg, fmtPts(want), g.V, g.V, wa.V, wa.V)})
+			probs = append(probs, problem{clause: "aggregate-value", detail: fmt.Sprintf("series %s: %s over %s returned %v(%T), want %v(%T)", key, r.Agg, fmtPts(want), g.V, g.V, wa.V, wa.V), feat: by})
 		}
 	}
 	for _, key := range md.keys {
 		mc := md.cells[key]
+		if r.Pred.hasValue() {
+			if _, must, _ := splitV(mc, r); len(must) > 0 && seen[key] == 0 {
+				probs = append(probs, problem{clause: "missing-series", detail: fmt.Sprintf("series %s has %s in range satisfying %s but was not returned with points", key, fmtPts(must), r.Pred), feat: "series-matches-by=" + matchedBy(r.Pred, mc.tags)})
+			}
+			continue
+		}
 		if match(r.Pred, mc.tags) == yes && len(inRange(mc.pts, r)) > 0 && seen[key] == 0 {
-			probs = append(probs, problem{"missing-series", fmt.Sprintf("series %s matches %s and has %s in range but was not returned with points", key, r.Pred, fmtPts(inRange(mc.pts, r)))})
+			probs = append(probs, problem{clause: "missing-series", detail: fmt.Sprintf("series %s matches %s and has %s in range but was not returned with points", key, r.Pred, fmtPts(inRange(mc.pts, r)))})
 		}
 	}
 	return
@@ -1030,13 +1407,13 @@ func checkGroups(gs []mini.Group, md *model, r Req) (probs []problem, nonEmpty i
 	probs, nonEmpty = checkSeries(flat, md, r)
 	if r.GMode == "none" {
 		if len(gs) > 1 {
-			probs = append(probs, problem{"group-none-several-groups", fmt.Sprintf("group mode none returned %d groups", len(gs))})
+			probs = append(probs, problem{clause: "group-none-several-groups", detail: fmt.Sprintf("group mode none returned %d groups", len(gs))})
 		}
 		return
 	}
 	for gi, g := range gs {
 		if len(g.PartitionVals) != len(r.Keys) {
-			probs = append(probs, problem{"partition-key-arity", fmt.Sprintf("group %d has %d partition values for keys %v", gi, len(g.PartitionVals), r.Keys)})
+			probs = append(probs, problem{clause: "partition-key-arity", detail: fmt.Sprintf("group %d has %d partition values for keys %v", gi, len(g.PartitionVals), r.Keys)})
 			return
 		}
 		// a missing value may be reported as nil or as ""
@@ -1050,7 +1427,7 @@ func checkGroups(gs []mini.Group, md *model, r Req) (probs []problem, nonEmpty i
 			for i, k := range r.Keys {
 				v, ok := tags[k]
 				if ok != g.HasVal[i] || v != g.PartitionVals[i] {
-					probs = append(probs, problem{"series-in-wrong-group", fmt.Sprintf("series %s is in the group with %s=%q(present=%v)", cellKey(tags), k, g.PartitionVals[i], g.HasVal[i])})
+					probs = append(probs, problem{clause: "series-in-wrong-group", detail: fmt.Sprintf("series %s is in the group with %s=%q(present=%v)", cellKey(tags), k, g.PartitionVals[i], g.HasVal[i])})
 				}
 			}
 		}
@@ -1077,9 +1454,9 @@ func checkGroups(gs []mini.Group, md *model, r Req) (probs []problem, nonEmpty i
 		}
 	}
 	if dup {
-		probs = append(probs, problem{"group-key-repeated", fmt.Sprintf("two groups share a partition key (series with equal group key are not in one group): %v", ord)})
+		probs = append(probs, problem{clause: "group-key-repeated", detail: fmt.Sprintf("two groups share a partition key (series with equal group key are not in one group): %v", ord)})
 	} else {
-		probs = append(probs, problem{"groups-out-of-order", fmt.Sprintf("groups are not in ascending partition-key order for keys %v: %v", r.Keys, ord)})
+		probs = append(probs, problem{clause: "groups-out-of-order", detail: fmt.Sprintf("groups are not in ascending partition-key order for keys %v: %v", r.Keys, ord)})
 	}
 	return
 }
@@ -1108,7 +1485,7 @@ func load(ds Dataset) (*mini.Fixture, mini.Bucket, error) {
 				fields := map[string]any{}
 				for _, c := range ds.Cells {
 					if c.S == s && c.Mask>>k&1 == 1 {
-						fields[fieldNames[c.F]] = value(c.S, c.F, k, old)
+						fields[fieldNames[c.F]] = ds.val(c.S, c.F, k, old)
 					}
 				}
 				if len(fields) > 0 {
@@ -1238,6 +1615,29 @@ func sigOf(ds Dataset, r Req, clause, hole string) string {
 	return vlib.JoinSig(parts...)
 }
 
+// sigV is the signature of a family-V (field-value predicate) violation.
+func sigV(r Req, clause, feat string) string {
+	api := "ReadFilter"
+	if r.Kind == "group" {
+		api = "ReadGroup-" + r.GMode
+		if r.Agg != "" {
+			api += "-agg"
+		}
+	}
+	parts := []string{api, clause, "pred=" + r.Pred.kind()}
+	if feat != "" {
+		parts = append(parts, feat)
+	}
+	return vlib.JoinSig(parts...)
+}
+
+func sigOfFam(ds Dataset, r Req, clause, hole string) string {
+	if ds.Fam == "V" {
+		return sigV(r, clause, "")
+	}
+	return sigOf(ds, r, clause, hole)
+}
+
 // holeInfo (family C) describes the expected result of a request in terms of shard groups, from the model only:
 // span = the largest number of shard groups between (and including) the first and the last in-range point of a series
 // not excluded by the predicate; hole = the strongest flavour of a "skipped" shard group of such a series: a group that intersects the
@@ -1302,6 +1702,13 @@ func holeInfo(md *model, r Req) (span int, hole string) {
 func expectNonEmpty(md *model, r Req) (n int, straddle bool) {
 	for _, k := range md.keys {
 		mc := md.cells[k]
+		if r.Pred.hasValue() {
+			if _, w, _ := splitV(mc, r); len(w) > 0 {
+				n++
+				straddle = straddle || (w[0].T < mini.Base+H && w[len(w)-1].T >= mini.Base+H)
+			}
+			continue
+		}
 		if match(r.Pred, mc.tags) == yes {
 			w := inRange(mc.pts, r)
 			if len(w) > 0 {
@@ -1339,22 +1746,22 @@ func TestCheck(t *testing.T) {
 		QuickBudgetS: 75, ThoroughBudgetS: 800,
 		Run: func(c *vlib.Ctx) {
 			reqsOf := map[string][]Req{"A": requests(c.Thorough(), "A"), "B": requests(c.Thorough(), "B"),
-				"C3": requestsC(c.Thorough(), 3), "C4": requestsC(c.Thorough(), 4)}
+				"C3": requestsC(c.Thorough(), 3), "C4": requestsC(c.Thorough(), 4), "V": requestsV(c.Thorough(), 3)}
 			dss := datasets(c.Thorough())
 			perFam := map[string]int{}
 			for _, ds := range dss {
 				perFam[ds.Fam]++
 			}
 			c.Note("datasets_total", fmt.Sprint(len(dss)))
-			c.Note("datasets_per_family", fmt.Sprintf("A: %d, B: %d, C: %d", perFam["A"], perFam["B"], perFam["C"]))
-			c.Note("requests_per_dataset", fmt.Sprintf("family A: %d, family B: %d, family C: %d (3 groups) / %d (4 groups)", len(reqsOf["A"]), len(reqsOf["B"]), len(reqsOf["C3"]), len(reqsOf["C4"])))
+			c.Note("datasets_per_family", fmt.Sprintf("A: %d, B: %d, C: %d, V: %d", perFam["A"], perFam["B"], perFam["C"], perFam["V"]))
+			c.Note("requests_per_dataset", fmt.Sprintf("family A: %d, family B: %d, family C: %d (3 groups) / %d (4 groups), family V: %d", len(reqsOf["A"]), len(reqsOf["B"]), len(reqsOf["C3"]), len(reqsOf["C4"]), len(reqsOf["V"])))
 			done := int64(0)
 			for i, ds := range dss {
 				if !c.Mine(int64(i)) {
 					continue
 				}
 				if c.Expired() {
-					c.Cap(fmt.Sprintf("wall budget: datasets are visited family A first, then B and C in alternating blocks, each simplest-first; this shard completed %d of its datasets (all requests for each)", done))
+					c.Cap(fmt.Sprintf("wall budget: datasets are visited family A first, then B, C and V in alternating blocks, each simplest-first; this shard completed %d of its datasets (all requests for each)", done))
 					return
 				}
 				md := buildModel(ds)
@@ -1393,6 +1800,15 @@ func TestCheck(t *testing.T) {
 							}
 						}
 						c.Outcome(fmt.Sprintf("C/%s/max-shard-span=%d/hole=%s", ck, span, hole))
+					} else if ds.Fam == "V" {
+						ck := "filter"
+						if r.Kind == "group" {
+							ck = "group"
+							if r.Agg != "" {
+								ck = "group-agg"
+							}
+						}
+						c.Outcome(fmt.Sprintf("V/%s/pred=%s/value-cut=%s", ck, r.Pred.kind(), valueCut(md, r)))
 					} else {
 						c.Outcome(fmt.Sprintf("%s/series-with-points=%d/groups=%d/empty-series=%v/straddle=%v", kind, v.nonEmpty, min(v.nGroups, 5), v.emptySer > 0, straddle))
 					}
@@ -1400,17 +1816,21 @@ func TestCheck(t *testing.T) {
 					switch {
 					case v.panicked != "":
 						fr := v.panicked[strings.LastIndex(v.panicked, "@ ")+2:]
-						c.Violation(sigOf(ds, r, "panic/"+fr, hole), fmt.Sprintf("%s on dataset %+v: %s", r, ds, v.panicked), cs)
+						c.Violation(sigOfFam(ds, r, "panic/"+fr, hole), fmt.Sprintf("%s on dataset %+v: %s", r, ds, v.panicked), cs)
 					case v.err != nil:
-						c.Violation(sigOf(ds, r, "error", hole), fmt.Sprintf("%s on dataset %+v returned error: %v", r, ds, v.err), cs)
+						c.Violation(sigOfFam(ds, r, "error", hole), fmt.Sprintf("%s on dataset %+v returned error: %v", r, ds, v.err), cs)
 					default:
 						seen := map[string]bool{}
 						for _, p := range v.probs {
-							if seen[p.clause] {
+							if seen[p.clause+p.feat] {
 								continue
 							}
-							seen[p.clause] = true
-							c.Violation(sigOf(ds, r, p.clause, hole), fmt.Sprintf("%s on dataset %+v: %s", r, ds, p.detail), cs)
+							seen[p.clause+p.feat] = true
+							sig := sigOf(ds, r, p.clause, hole)
+							if ds.Fam == "V" { // own signatures: without the shard count, with the value-family feature
+								sig = sigV(r, p.clause, p.feat)
+							}
+							c.Violation(sig, fmt.Sprintf("%s on dataset %+v: %s", r, ds, p.detail), cs)
 						}
 					}
 					if c.WantSample() && want >= 2 && straddle && r.Pred != nil {
@@ -1435,6 +1855,9 @@ func TestCheck(t *testing.T) {
 			v := run(f, b, md, cs.Req, true)
 			var sb strings.Builder
 			fam := cs.DS.Fam
+			if fam == "V" {
+				fam = fmt.Sprintf("V (%d shard groups, value mask %06b: bit k set = slot k high for the even pool series, low for the odd ones; expected value cut: %s)", cs.DS.Groups, cs.DS.VMask, valueCut(md, cs.Req))
+			}
 			if fam == "C" {
 				span, hole := holeInfo(md, cs.Req)
 				fam = fmt.Sprintf("C (%d shard groups; expected max shard span %d, hole flavour %s)", cs.DS.Groups, span, hole)
